@@ -47,3 +47,40 @@ func VerifHarness_C05_DateTimeOffsetNormalisation() {
 	verifCheckPair(a, b, cmp, defined)
 	verifrt.Reach("end")
 }
+
+// C05: two DateTimes of the *same* layout that carry different offsets compare on their UTC components down to that
+// precision - at hour precision an offset of +05:30 or +05:45 hides minutes, which take no part. Fixed day (clock
+// symbolic), offsets from {Z, +01:00, +05:30, +05:45, -03:30, -11:00} on both sides.
+func VerifHarness_C05_SameLayoutDifferentOffsets() {
+	offs := []int{0, 60, 330, 345, -210, -660}
+	la := []int{7, 8, 9}[verifrt.Choose("layoutTZ", 3)] // dtHourLayoutTZ, dtMinuteLayoutTZ, dtSecondLayoutTZ
+	rank := verifDTRank(la)
+	mk := func(label string) (DateTime, verifCivil) {
+		off := offs[verifrt.Choose(label+".off", len(offs))]
+		h, mi, s := verifrt.NondetIntRange(label+".h", 0, 23), 0, 0
+		if rank >= 4 {
+			mi = verifrt.NondetIntRange(label+".mi", 0, 59)
+		}
+		if rank >= 5 {
+			s = verifrt.NondetIntRange(label+".s", 0, 59)
+		}
+		t := time.Date(2024, 3, 10, h, mi, s, 0, time.FixedZone("", off*60))
+		// reference: the UTC wall clock by integer arithmetic on the minutes of the day (the date may move by a day)
+		total := h*60 + mi - off
+		day := 10
+		if total < 0 {
+			total, day = total+1440, 9
+		} else if total >= 1440 {
+			total, day = total-1440, 11
+		}
+		return DateTime{t, verifDTLayouts[la]}, verifCivil{y: 2024, mo: 3, d: day, h: total / 60, mi: total % 60, s: s, rank: rank}
+	}
+	a, ua := mk("a")
+	b, ub := mk("b")
+	if rank == 3 {
+		ua.mi, ub.mi = 0, 0 // hidden by the precision
+	}
+	cmp, defined := verifCompare("datetime", ua, ub)
+	verifCheckPair(a, b, cmp, defined)
+	verifrt.Reach("end")
+}
